@@ -2,4 +2,4 @@
 From Coq Require Import Extraction ExtrOcamlBasic NArith ZArith.
 From V Require Import C03.Model C04.Model.
 Extraction "c04_model.ml" node_empty store_new_node store_old_node revert_new_node revert_old_node valid_next guard_old
-  nstep nrun_new nrun_old obs Z.of_N blen.
+  nstep nrun_new nrun_old obs Z.of_N blen sys_guard.
